@@ -6,9 +6,12 @@ import (
 	"fmt"
 	"io"
 	"math/rand"
+	"net/http"
+	"net/http/httptest"
 	"os"
 	"os/exec"
 	"path/filepath"
+	"strings"
 	"sync"
 	"sync/atomic"
 	"time"
@@ -586,6 +589,62 @@ func cliLeg(c *harness.Ctx, rng *rand.Rand, class string, blob []byte, idx desyn
 		if !bytes.Equal(stdout.Bytes(), want) {
 			c.Violation("cli-bytes", "desync %v wrote %d bytes, expected %d (blob %d bytes)", args, stdout.Len(), len(want), L)
 			return
+		}
+	}
+	// the same through an HTTP store whose server hangs up without an answer whenever one particular chunk is asked
+	// for: the command must fail, with or without -l, whatever it had written before
+	if len(idx.Chunks) > 0 {
+		ls, _ := desync.NewLocalStore(store, desync.StoreOptions{})
+		victim := idx.Chunks[rng.Intn(len(idx.Chunks))]
+		nullID := dsu.Sum(make([]byte, sz.Max))
+		h := desync.NewHTTPHandler(ls, false, false, desync.Converters{desync.Compressor{}}, "")
+		var hung int64
+		srv := httptest.NewServer(http.HandlerFunc(func(w http.ResponseWriter, r *http.Request) {
+			if strings.Contains(r.URL.Path, victim.ID.String()) {
+				atomic.AddInt64(&hung, 1)
+				if hj, ok := w.(http.Hijacker); ok {
+					if conn, _, err := hj.Hijack(); err == nil {
+						conn.Close()
+						return
+					}
+				}
+			}
+			h.ServeHTTP(w, r)
+		}))
+		defer srv.Close()
+		for k := 0; k < 2; k++ {
+			args := []string{"cat", "-s", srv.URL, "-e", "0"}
+			off := 0
+			if rng.Intn(2) == 0 && L > 0 {
+				off = rng.Intn(int(victim.Start) + 1)
+				args = append(args, "-o", fmt.Sprint(off))
+			}
+			if k == 0 {
+				// a length that reaches into or beyond the chunk that cannot be had
+				args = append(args, "-l", fmt.Sprint(int(victim.Start)-off+1+rng.Intn(L-int(victim.Start))))
+			}
+			args = append(args, idxFile)
+			before := atomic.LoadInt64(&hung)
+			cmd := exec.Command(cli, args...)
+			cmd.Env = append(os.Environ(), "HOME="+dir)
+			var stdout, stderr bytes.Buffer
+			cmd.Stdout, cmd.Stderr = &stdout, &stderr
+			err := cmd.Run()
+			asked := atomic.LoadInt64(&hung) > before
+			if victim.ID == nullID {
+				continue // served from memory, never requested
+			}
+			if err == nil && asked {
+				c.Violation("cli-store-error-ignored", "desync %v exited 0 although the store hung up on the request for chunk %x (%d bytes written)", args, victim.ID[:4], stdout.Len())
+				return
+			}
+			if !bytes.HasPrefix(blob[off:], stdout.Bytes()) {
+				c.Violation("cli-bytes", "desync %v wrote bytes that are not the blob's", args)
+				return
+			}
+			if asked {
+				c.Count("cli_runs_with_hung_up_store", 1)
+			}
 		}
 	}
 	c.Count("cli_cases", 1)
